@@ -7,7 +7,7 @@ from vlib.runner import SubCheck
 from vlib import gen_surface as G
 from vlib import gen_tets as GT
 from vlib import ref_geometry as R
-from vlib.topo import SurfRef, TetRef, key
+from vlib.topo import SurfRef, key
 from vlib.build import surface_from, volume_from, ints
 
 PROPERTY = "C07"
@@ -23,7 +23,9 @@ RULE = ("Well-shaped oriented manifold surfaces: (tri_surface) triangulations fr
         "(rigidly moved, scaled, renumbered - built with numpy, never through mouette.transform) are evaluated the same way with one "
         "drawn option combination per function and compared with the base results through the expected transformation law. "
         "(interpolation) every interpolate_/scatter_/average_ function x weight mode x scalar/vector x dense/sparse input and output on "
-        "a constant and on a random attribute. non-trivial = non-identity rotation, translation and scale, and the mesh is closed with "
+        "a constant and on a random attribute. (nonconvex_face) one planar simple polygon with 4-8 vertices, star-shaped, with at least "
+        "one reflex corner (optionally with an out-of-plane neighbour triangle): face_area / face_normals / face_barycenter / total_area "
+        "against the vector-area definitions, as generated, with the face's vertex list rotated, and rigidly moved. non-trivial = non-identity rotation, translation and scale, and the mesh is closed with "
         ">= 4 faces or has both border and interior vertices (surfaces) / has >= 2 cells (tets); distinct = distinct realised case.")
 ASSUMPTIONS = [
     "faces are planar (relative defect <= 1e-9) and strictly convex with corner angles in [10, 165] degrees (triangles: min angle 8 degrees); "
@@ -318,7 +320,6 @@ def evaluate_surface(ctx, V, F, rnd, where, full):
     chi = R.euler_characteristic(nV, F)
 
     extra = []
-    hist_dummy = []
 
     def glob(fname, qname, exp, kind):
         def run(call, out, hist):
@@ -889,6 +890,87 @@ def fn_interp(case, ctx):
                     ctx.check(bool(np.array_equal(back, x)), "input-modified:" + sig, f"{desc}: the input attribute was modified")
 
 
+# --------------------------------------------------------------------------------------------- non-convex planar faces
+
+@st.composite
+def nonconvex_case(draw):
+    """one simple planar polygon, star-shaped about the origin, with at least one reflex corner (every corner at least 15 degrees
+    away from 0 / 180 / 360), optionally with a triangle glued out of plane on side (0,1); then rigidly moved"""
+    n = draw(st.integers(4, 8))
+    ang = [2 * math.pi * (i + draw(st.floats(-0.2, 0.2, allow_nan=False))) / n for i in range(n)]
+    small = draw(st.lists(st.booleans(), min_size=n, max_size=n))
+    rad = [draw(st.floats(0.25, 0.5, allow_nan=False)) if small[i] else draw(st.floats(0.9, 1.3, allow_nan=False)) for i in range(n)]
+    P = [[rad[i] * math.cos(ang[i]), rad[i] * math.sin(ang[i]), 0.0] for i in range(n)]
+    rows = R.signed_corner_angles_deg(P, [list(range(n))])[0]
+    good = all((15 <= a <= 165) or (-165 <= a <= -15) for a in rows) and any(a < 0 for a in rows)
+    if not good:
+        # the classic dart / arrow head, reflex corner at a drawn position
+        n = 4
+        k = draw(st.integers(0, 3))
+        base = [[0.0, 0.0, 0.0], [2.0, 0.0, 0.0], [0.5, 0.5, 0.0], [0.0, 2.0, 0.0]]        # reflex at index 2
+        P = [base[(i - k + 2) % 4] for i in range(4)]
+    V = [list(p) for p in P]
+    F = [list(range(n))]
+    if draw(st.booleans()):
+        m = (np.array(V[0]) + np.array(V[1])) / 2
+        V.append([float(m[0]), float(m[1]), 0.7])
+        # side (0,1) of the polygon is traversed 0 -> 1, the triangle must traverse it 1 -> 0
+        F.append([1, 0, n])
+    c = {"V": V, "F": F, "rot": draw(st.integers(1, n - 1)), "seed": draw(st.integers(0, 1000))}
+    c.update(draw(motion()))
+    return c
+
+
+def fn_nonconvex(case, ctx):
+    import mouette as M
+    A = M.attributes
+    V0 = np.array(case["V"], dtype=float).reshape(-1, 3)
+    F0 = [list(map(int, f)) for f in case["F"]]
+    if SurfRef(len(V0), F0).validate() is not None:
+        raise AssertionError("invalid generated surface")
+    n = len(F0[0])
+    rows = R.signed_corner_angles_deg(V0, [F0[0]])[0]
+    if not (any(a < 0 for a in rows) and all(15 - 1e-6 <= abs(a) <= 165 + 1e-6 for a in rows)) or R.planarity_defect(V0, [F0[0]]) > 1e-12:
+        raise AssertionError("generated polygon is not a well-shaped non-convex planar polygon")
+    Rm, tr, s, ident = motion_of(case)
+    ctx.label(f"n={n}", f"reflex={sum(1 for a in rows if a < 0)}", "reflex-at-second-vertex" if rows[1] < 0 else "second-vertex-convex",
+              "with-neighbour" if len(F0) > 1 else "alone")
+    ctx.nontrivial(not ident)
+    r = case["rot"] % n
+    variants = [("as generated", V0, F0),
+                (f"face vertex list rotated by {r}", V0, [F0[0][r:] + F0[0][:r]] + F0[1:]),
+                ("rigidly moved", V0 @ Rm.T + tr, F0)]
+    for where, V, F in variants:
+        mesh = surface_from(V.tolist(), F)
+        if [ints(f) for f in mesh.faces] != F:
+            ctx.fail("faces", "mesh.faces differs from the input face list")
+            return
+        L = coord_scale(V)
+        for q, fname, dim, kind, ref in (("area", "face_area", 1, "area", R.face_areas(V, F)),
+                                         ("fnormal", "face_normals", 3, "dir", R.face_normals(V, F)),
+                                         ("fbary", "face_barycenter", 3, "point", R.face_barycenters(V, F))):
+            p, d = COMBOS[(case["seed"] + len(where) + dim) % 4]
+            ok, attr = ctx.call(fname, getattr(A, fname), mesh, name="c07_" + q, persistent=p, dense=d)
+            if not ok:
+                continue
+            vals = read_attr(ctx, fname, attr, len(F), dim, where)
+            if vals is not None:
+                compare(ctx, "nonconvex:" + fname, vals, ref, kind, L,
+                        f"{where}: {fname} of a planar non-convex {n}-gon with signed corner angles {np.round(rows, 1).tolist()} "
+                        f"(face 0 = {F[0]}; expected = |vector area| / unit vector area / vertex mean)")
+        ok, ta = ctx.call("total_area", A.total_area, mesh)
+        if ok:
+            compare(ctx, "nonconvex:total_area", [float(ta)], [float(np.sum(R.face_areas(V, F)))], "area", L, f"{where}: total_area")
+        # corner angles: asserted at the convex corners only (at a reflex corner the library returns the unsigned angle between the
+        # two sides, which the docstring 'angles of a face at a vertex' does not exclude)
+        ok, attr = ctx.call("corner_angles", A.corner_angles, mesh, persistent=False)
+        if ok:
+            vals = read_attr(ctx, "corner_angles", attr, sum(len(f) for f in F), 1, where)
+            if vals is not None:
+                sg = np.array([a for row in R.signed_corner_angles_deg(V, F) for a in row])
+                compare(ctx, "nonconvex:corner_angles", vals, R.corner_angles(V, F), "inv", L, f"{where}: corner_angles at convex corners", sg > 0)
+
+
 def self_test():
     R.self_test()
     # the variant laws on a literal case: a unit right triangle moved by a quarter turn about z and (1,2,3)
@@ -902,10 +984,23 @@ def self_test():
 
 
 SUBCHECKS = [
-    SubCheck("tri_surface", tri_case(), fn_surface, quick=640, thorough=800),
-    SubCheck("poly_surface", poly_case(), fn_surface, quick=560, thorough=700),
-    SubCheck("tet_volume", tet_case(), fn_tets, quick=320, thorough=400),
-    SubCheck("interpolation", interp_case(), fn_interp, quick=320, thorough=400),
+    SubCheck("tri_surface", tri_case(), fn_surface, quick=640, thorough=600),
+    SubCheck("poly_surface", poly_case(), fn_surface, quick=560, thorough=500),
+    SubCheck("tet_volume", tet_case(), fn_tets, quick=320, thorough=300),
+    SubCheck("interpolation", interp_case(), fn_interp, quick=320, thorough=250),
+    SubCheck("nonconvex_face", nonconvex_case(), fn_nonconvex, quick=240, thorough=200),
 ]
 
-MATCHERS = {}
+def kf_nonconvex_faces(case, violation):
+    """face_area (quads: mean of the two triangulations, n>4: unsigned fan about the vertex mean) and face_normals (first three
+    vertices) are only right on convex faces. Narrow: only the dedicated sub-check, only these signatures, only a case whose
+    first face really has a reflex corner."""
+    if violation.sub_check != "nonconvex_face":
+        return False
+    if violation.signature not in ("nonconvex:face_area", "nonconvex:face_normals", "nonconvex:total_area"):
+        return False
+    rows = R.signed_corner_angles_deg(np.array(case["V"], dtype=float), [case["F"][0]])[0]
+    return any(a < 0 for a in rows)
+
+
+MATCHERS = {"kf_nonconvex_faces": kf_nonconvex_faces}
